@@ -86,6 +86,8 @@ type Layout struct {
 	Tape       []uint8 `json:"tape,omitempty"` // consumed in order by every layout decision; exhausted = 0 = canonical choice
 	// LongNoise: length of the first comment line at column 0 and of the first whitespace-only line (0: ordinary)
 	LongNoise int `json:"long_noise,omitempty"`
+	// MixedEnds: each line gets its own line end (LF, CRLF, bare CR)
+	MixedEnds bool `json:"mixed_ends,omitempty"`
 	// AlignBlock > 0: a comment line is inserted so that the first multi-byte character of each file lies across a multiple of
 	// AlignBlock bytes (its first AlignSplit+1 bytes before the boundary): readers that work block-wise see it in two pieces
 	AlignBlock int `json:"align_block,omitempty"`
@@ -143,6 +145,24 @@ func (p *printer) cur() string { return p.indent[len(p.indent)-1] }
 func (p *printer) push() {
 	var add string
 	switch {
+	case p.lay.Unit == -2:
+		// the kind of indentation changes from one nesting level to the next: a block indented with blanks holds one indented
+		// with tabs only, and so on (no line mixes the two; a tab counts 8 columns)
+		cols := 0
+		for _, ch := range p.cur() {
+			if ch == '\t' {
+				cols += 8
+			} else {
+				cols++
+			}
+		}
+		if len(p.indent)%2 == 1 {
+			p.indent = append(p.indent, strings.Repeat("\t", cols/8+1))
+		} else {
+			p.indent = append(p.indent, strings.Repeat(" ", cols+1+p.lay.next("width")%4))
+		}
+		p.lay.note("indent-kind-per-level")
+		return
 	case p.lay.Unit == 0:
 		add = "\t"
 	case p.lay.Unit < 0:
@@ -417,6 +437,20 @@ func renderScript(sc *Script, lay *Layout) []string {
 		}
 		if lay.CRLF {
 			s = strings.ReplaceAll(s, "\n", "\r\n")
+		}
+		if lay.MixedEnds {
+			// every line chooses its own line end: LF, CRLF or a bare CR (the lexer takes all three)
+			var b strings.Builder
+			for _, line := range strings.SplitAfter(s, "\n") {
+				if strings.HasSuffix(line, "\n") {
+					body := strings.TrimSuffix(strings.TrimSuffix(line, "\n"), "\r")
+					b.WriteString(body + []string{"\n", "\r\n", "\r", "\n", "\r\n"}[lay.next("lineend")%5])
+				} else {
+					b.WriteString(line)
+				}
+			}
+			s = b.String()
+			lay.note("mixed-line-ends")
 		}
 		if lay.AlignBlock > 0 {
 			s = alignMultiByte(s, lay.AlignBlock, lay.AlignSplit, lay.CRLF)
